@@ -1385,6 +1385,9 @@ LIB_MUTABLE_ALLOW = {
     ("pdf.pdf_extractor", "_CHAR_MAP_PATCH_DEPTH"): "lock + user counter: C15_patch_restored (checked to be 0 at rest)",
     ("extractors.archive_extractor", "_config"): "rebound only by the public configure_archive_extraction() API",
 }
+# class of each allow-listed cell in the Coq store model (C15.Model.kind)
+LIB_KIND = {"_FONT_CACHE": "(KMemo 4096)", "_ROUND_KEY_CACHE": "(KMemo 4)", "_TYPE_REGISTRY": "KLazy",
+            "_CHAR_MAP_PATCH_ORIGINALS": "KProtocol", "_CHAR_MAP_PATCH_DEPTH": "KProtocol", "_config": "KConfig"}
 _CONTAINERS = (dict, list, set, bytearray)
 
 
@@ -1670,9 +1673,26 @@ def shared_mutable_inventory(ctx):
                             return False
         return True
 
-    inv, bad = [], []
+    inv, bad, cells = [], [], []
     for rel, tree in trees.items():
         mod = rel[:-3].replace("/", ".")
+        # memoised module-level functions are shared cells too
+        for fdef in tree.body:
+            if isinstance(fdef, ast.FunctionDef):
+                for dec in fdef.decorator_list:
+                    u = ast.unparse(dec)
+                    if "lru_cache" in u or u in ("cache", "functools.cache"):
+                        m_ = re.search(r"maxsize\s*=\s*(\d+)", u)
+                        cap = int(m_.group(1)) if m_ else (128 if "(" not in u and "lru" in u else None)
+                        if cap is None:
+                            try:      # maxsize given by a named constant: ask the live function
+                                live = getattr(importlib.import_module("sharepoint2text." + mod), fdef.name)
+                                cap = live.cache_parameters()["maxsize"]
+                            except Exception:  # noqa
+                                cap = None
+                        cells.append((f"{mod}.{fdef.name}", f"(KMemo {min(cap, 4096)})" if cap is not None else "KRaw"))
+                        if cap is None:
+                            bad.append(f"{rel}:{fdef.lineno} {fdef.name}: unbounded functools cache without a modelled discipline")
         scopes = [("", tree.body)] + [(c.name + ".", c.body) for c in tree.body if isinstance(c, ast.ClassDef)]
         for prefix, body in scopes:
             is_dc = False
@@ -1715,9 +1735,20 @@ def shared_mutable_inventory(ctx):
                     bad.append(f"{rel}:{st.lineno} {name} ({kind}) is shared by all extractor calls and is mutated / mutable "
                                "without a modelled discipline")
                 inv.append(f"{rel}:{st.lineno} {name} [{kind}] -> {verdict}")
+                if verdict is None:
+                    ck = "KRaw"
+                elif not verdict.startswith("allow-listed"):
+                    ck = "KConst"
+                else:
+                    ck = LIB_KIND.get(tg.id, "KRaw")
+                cells.append((f"{mod}.{name}", ck))
     for g in sorted(rebound):
         if not any(a == g for (_, a) in LIB_MUTABLE_ALLOW):
             bad.append(f"`global {g}` rebinding without a modelled discipline")
+            cells.append((f"global {g}", "KRaw"))
+        elif not any(nm.endswith("." + g) for nm, _ in cells):
+            cells.append((f"global {g}", LIB_KIND.get(g, "KRaw")))
+    ctx.extra["_cells"] = cells
     ctx.extra["shared_mutable_inventory"] = len(inv)
     ctx.extra["shared_mutable_allowlisted"] = [x for x in inv if "allow-listed" in x]
     ctx.obligation("X:inventory(module/class-level mutable objects have a modelled discipline)", not bad, "; ".join(bad[:6]))
@@ -2273,6 +2304,128 @@ def fresh_process_history_checks(ctx, family, installers, base):
     ctx.obligation("fresh-process-history-subprocesses-completed", not broken, "; ".join(broken[:3]))
 
 
+def translate_registry(ser):
+    """Shape of serialization._get_type_registry: 'inplace' (if REG: return; for ...: REG[name] = obj),
+    'publish' (no item assignment to REG; exactly one REG.update(<local>) statement), 'locked' (whole body under a
+    module-level lock).  Returns (shape, {lineno: label}) ; anything else raises."""
+    src = Path(ser.__file__).read_text(encoding="utf-8")
+    fn = [n for n in ast.parse(src).body if isinstance(n, ast.FunctionDef) and n.name == "_get_type_registry"]
+    if len(fn) != 1:
+        raise TranslateError("_get_type_registry not found")
+    fn = fn[0]
+    body = [st for st in fn.body if not (isinstance(st, ast.Expr) and isinstance(st.value, ast.Constant))]
+    if len(body) == 1 and isinstance(body[0], ast.With) and len(body[0].items) == 1 and _is_name(body[0].items[0].context_expr):
+        lk = getattr(ser, body[0].items[0].context_expr.id, None)
+        if hasattr(lk, "acquire") and hasattr(lk, "release"):
+            return "locked", {}
+    if not (body and isinstance(body[0], ast.If) and _is_name(body[0].test, "_TYPE_REGISTRY") and len(body[0].body) == 1
+            and isinstance(body[0].body[0], ast.Return) and isinstance(body[-1], ast.Return)):
+        raise TranslateError("_get_type_registry: unknown shape (no `if _TYPE_REGISTRY: return` fast path)")
+    stores = [n for n in ast.walk(fn) if isinstance(n, ast.Subscript) and isinstance(n.ctx, ast.Store) and _is_name(n.value, "_TYPE_REGISTRY")]
+    updates = [n for n in ast.walk(fn) if isinstance(n, ast.Call) and ast.unparse(n.func) == "_TYPE_REGISTRY.update"]
+    other = [n for n in ast.walk(fn) if isinstance(n, ast.Call) and isinstance(n.func, ast.Attribute) and _is_name(n.func.value, "_TYPE_REGISTRY")
+             and n.func.attr in MUT_METHODS and n.func.attr != "update"]
+    labels = {body[0].lineno: "Check"}
+    if other:
+        raise TranslateError("_get_type_registry mutates the registry by " + other[0].func.attr)
+    if stores and not updates:
+        for n in ast.walk(fn):
+            if isinstance(n, ast.Assign) and any(t is x for t in n.targets for x in stores):
+                labels[n.lineno] = "Fill"
+        return "inplace", labels
+    if updates and not stores and len(updates) == 1:
+        return "publish", labels
+    raise TranslateError("_get_type_registry: mixed item assignment / update")
+
+
+def registry_checks(ctx, shape, labels):
+    """Controlled schedules on the real _get_type_registry: thread A is stopped after j in-place assignments, thread
+    B then deserialises a result; B must get the dataclass back.  The model is run on the same schedules."""
+    import sharepoint2text
+    from sharepoint2text.parsing.extractors import serialization as ser
+    src = next((str(p) for p in fixtures() if p.name == "sample.html"), None)
+    if src is None:
+        return
+    js = [r.to_json() for r in sharepoint2text.read_file(src)][0]
+    want = type(ser.deserialize_extraction(js)).__name__
+    n = len(ser._TYPE_REGISTRY)
+    cases = []
+    for j in (0, 1, 2, 7):
+        ser._TYPE_REGISTRY.clear()
+        gates = Gates(ser._get_type_registry.__code__, labels)
+        out = [None, None]
+
+        def worker(tid):
+            sys.settrace(gates.tracer(tid))
+            try:
+                out[tid] = type(ser.deserialize_extraction(json.loads(json.dumps(js)))).__name__
+            except BaseException as e:  # noqa
+                out[tid] = "exc:" + type(e).__name__
+            finally:
+                sys.settrace(None)
+                gates.finish(tid)
+        ths = [threading.Thread(target=worker, args=(t,), daemon=True) for t in range(2)]
+        for t in ths:
+            t.start()
+        gates.wait_settled(range(2))
+        steps = 0
+        if shape == "inplace":
+            for _ in range(1 + j):          # Check, then j assignments
+                gates.grant(0)
+                steps += 1
+        mid = len(ser._TYPE_REGISTRY)
+        guard = 0
+        while gates.label(1) not in (None, "Done") and guard < 100000:
+            gates.grant(1)
+            guard += 1
+        b_done_size = len(ser._TYPE_REGISTRY)
+        while gates.label(0) not in (None, "Done") and guard < 200000:
+            gates.grant(0)
+            guard += 1
+        for t in ths:
+            t.join(timeout=5)
+        ctx.case(("type-registry", shape, j, tuple(out)), True, kind="type-registry:schedule")
+        ok_b = out[1] == want
+        cases.append(f"({n}, {j if shape == 'inplace' else 0}, {'true' if ok_b else 'false'})")
+        if out != [want, want]:
+            ctx.finding("type-registry:partial-view",
+                        f"deserialize_extraction in thread B returns {out[1]} instead of {want} while thread A is inside "
+                        f"_get_type_registry with {mid} of {n} names filled (A stopped after {j} assignments; registry checked non-empty "
+                        "by B and returned as is)",
+                        {"document": src, "schedule": f"A: Check + {j} x Fill; B: runs to completion; A: rest", "got": out, "want": want,
+                         "gates": {str(k): v for k, v in labels.items()}, "registry_names": n})
+    ser._TYPE_REGISTRY.clear()
+    ser._get_type_registry()
+    prog = "reg_inplace" if shape == "inplace" else "reg_publish"
+    pre = ("From S2T Require Import C15.Model.\nImport List ListNotations.\n"
+           "Definition reg_case (c : nat * nat * bool) : bool :=\n"
+           "  let '(n, j, okb) := c in\n"
+           f"  let st := reg_run n (reg_init 2 ({prog} n)) (repeat 0%nat (if Nat.eqb j 0 then 0 else S j) ++ repeat 1%nat (n + 3)) in\n"
+           "  match nth_error (rthreads st) 1 with\n"
+           "  | Some th => match rview th with Some v => Bool.eqb (reg_full n v) okb | None => false end\n"
+           "  | None => false end.\n")
+    okc, failing, log = coq_eval_shards(ctx, "reg", pre, "reg_case", cases, ty="nat * nat * bool")
+    ctx.traces += len(cases)
+    ctx.obligation("correspondence:registry model==real _get_type_registry under controlled schedules", okc and not failing,
+                   (f"{len(failing)} disagreements {cases} " + log)[:600])
+
+
+def gen_inventory(ctx, unknown_sites, reg_shape):
+    cells = ctx.extra.pop("_cells", [])
+    from common import coq_str
+    txt = "(* GENERATED on every check run from the ast of every library module - do not edit. *)\n"
+    txt += "From Coq Require Import List.\nImport ListNotations.\nFrom S2T Require Import Lib.PyStr C15.Model.\n\n"
+    txt += "(* every module-level / class-level object shared by extractor calls, with its class *)\n"
+    txt += "Definition shared_inventory : list (str * kind) := [\n  "
+    txt += ";\n  ".join(f"({coq_str(nm)}, {k})" for nm, k in cells) + "\n].\n\n"
+    txt += f"Definition unclassified_mutation_sites : nat := {len(unknown_sites)}.\n\n"
+    txt += f"(* serialization._get_type_registry: {reg_shape} *)\n"
+    txt += f"Definition registry_shape_modelled : bool := {'true' if reg_shape in ('inplace', 'publish', 'locked') else 'false'}.\n"
+    ctx.gen_write("Gen/C15Inventory.v", txt)
+    ctx.extra["inventory_cells"] = {k: sum(1 for _, x in cells if x.startswith(k) or x.startswith("(" + k)) for k in
+                                    ("KConst", "KMemo", "KLazy", "KProtocol", "KConfig", "KRaw")}
+
+
 def write_damaged_files(fx, tmpdocs):
     """two failing variants (late failures preferred) of the smallest fixture of every suffix, as files"""
     out, seen = [], set()
@@ -2330,12 +2483,14 @@ def _run(ctx, tmproot, tmpdocs):
     sk, rk_shape, rk_gates, fk, lru, notes = gen_files(ctx, pe, aes)
     ctx.extra["generated"] = notes
 
-    ctx.prove("C15/Props.v", ["C15/ProofsPatch.vo", "C15/ProofsMemo.vo"], expected=[
+    ctx.prove("C15/Props.v", ["C15/ProofsPatch.vo", "C15/ProofsMemo.vo", "C15/ProofsShared.vo"], expected=[
         "C15_patch_refuted", "C15_patch_interference_refuted", "C15_patch_nesting_unbounded", "C15_patch_restored",
         "C15_patch_inside_wrapped", "C15_patch_no_deadlock", "C15_sequential_residue_free", "C15_memo_transparent",
         "C15_round_keys_atomic_is_memo", "C15_round_key_cache_race_refuted", "C15_font_cache_transparent_refuted",
         "C15_font_cache_keyed_transparent", "C15_aes_patch_residue_refuted", "C15_aes_result_history_refuted",
-        "C15_aes_result_history_independent", "C15_aes_guard_complete_independent", "C15_aes_guard_incomplete_refuted"])
+        "C15_aes_result_history_independent", "C15_aes_guard_complete_independent", "C15_aes_guard_incomplete_refuted",
+        "C15_type_registry_inplace_refuted", "C15_type_registry_publish_complete", "C15_no_other_shared_state",
+        "C15_unclassified_shared_state_refuted"])
     ctx.prove("C15/Inst.v", ["Gen/C15Skeleton.vo", "C15/Corr.vo", "C15/ProofsPatch.vo"], expected=[
         "C15_skeleton_is_locked_protocol", "C15_skeleton_restored", "C15_skeleton_inside_wrapped",
         "C15_single_patch_target", "C15_skeleton_safe_k2", "C15_skeleton_safe_k3_after_history"])
@@ -2375,8 +2530,21 @@ def _run(ctx, tmproot, tmpdocs):
 
     tm = ctx.extra.setdefault("phase_s", {})
     t1 = time.time()
-    global_mutation_inventory(ctx)
+    unknown_sites = global_mutation_inventory(ctx)
     shared_mutable_inventory(ctx)
+    from sharepoint2text.parsing.extractors import serialization as _ser
+    try:
+        reg_shape, reg_labels = translate_registry(_ser)
+        reg_err = None
+    except TranslateError as e:
+        reg_shape, reg_labels, reg_err = "unknown", {}, str(e)
+    ctx.obligation("X:shape-translation(_get_type_registry)", reg_err is None, reg_err or "")
+    gen_inventory(ctx, unknown_sites, reg_shape)
+    ctx.prove("C15/InstShared.v", ["Gen/C15Inventory.vo", "C15/ProofsShared.vo"], expected=[
+        "C15_inventory_classified", "C15_mutation_sites_classified", "C15_inventory_no_other_shared_state",
+        "C15_type_registry_shape_modelled"])
+    if reg_shape in ("inplace", "publish"):
+        registry_checks(ctx, reg_shape, reg_labels)
     import_order_checks(ctx, fx, tmpdocs, write_damaged_files(fx, tmpdocs))
     tm["inventories+import-order"] = round(time.time() - t1, 1); t1 = time.time()
     enc_family = [v for k, v in sorted(special.items()) if k.startswith("enc_") and "aes-256" not in k and v in base]
